@@ -255,9 +255,11 @@ func (b *RaftBackend) newTransaction(ctx context.Context, writable bool) (*RaftT
 			b.fsm.fastTxnTracker.completeTransaction(startIndex)
 			lowestActiveIndex := b.fsm.fastTxnTracker.lowestActiveIndex()
 
-			b.l.RLock()
-			lowestActiveIndex = min(lowestActiveIndex, b.raft.AppliedIndex()) // we need to cap the lowest active index, otherwise we might miss transaction started later
-			b.l.RUnlock()
+			// We need to cap the lowest active index, otherwise we might miss
+			// transaction started later; those start at the FSM's index, which
+			// may be behind raft.AppliedIndex().
+			fsmState, _ := b.fsm.LatestState()
+			lowestActiveIndex = min(lowestActiveIndex, fsmState.Index)
 
 			b.fsm.fastTxnTracker.clearOldEntries(lowestActiveIndex)
 		}
@@ -800,9 +802,11 @@ func (t *RaftTransaction) Rollback(ctx context.Context) error {
 			t.b.fsm.fastTxnTracker.completeTransaction(t.index)
 			lowestActiveIndex := t.b.fsm.fastTxnTracker.lowestActiveIndex()
 
-			t.b.l.RLock()
-			lowestActiveIndex = min(lowestActiveIndex, t.b.raft.AppliedIndex()) // we need to cap the lowest active index, otherwise we might miss transaction started later
-			t.b.l.RUnlock()
+			// We need to cap the lowest active index, otherwise we might miss
+			// transaction started later; those start at the FSM's index, which
+			// may be behind raft.AppliedIndex().
+			fsmState, _ := t.b.fsm.LatestState()
+			lowestActiveIndex = min(lowestActiveIndex, fsmState.Index)
 
 			t.b.fsm.fastTxnTracker.clearOldEntries(lowestActiveIndex)
 		}
